@@ -601,6 +601,17 @@ func runC18(r *Rand, tier string, o *Out) {
 		out := o.Do("P", "idl.type "+hx([]byte(t)), true)
 		o.Count("type-answer:" + strings.SplitN(out, " ", 2)[0])
 	}
+	// types nested a hundred levels and more: lists in lists, maps in the values of maps, tuples in tuples
+	for _, depth := range []int{99, 100, 101, 102, 150, 400} {
+		for _, t := range []string{
+			strings.Repeat("Vec<", depth) + "int32" + strings.Repeat(">", depth),
+			strings.Repeat("Map<str,", depth) + "int32" + strings.Repeat(">", depth),
+			strings.Repeat("Tuple<", depth) + "int32" + strings.Repeat(">", depth),
+		} {
+			out := o.Do("P", "idl.type "+hx([]byte(t)), true)
+			o.Count("deep-type-answer:" + strings.SplitN(out, " ", 2)[0])
+		}
+	}
 	// printed by the code, parsed by the code and by the model: every signature the generator of C09 draws
 	for i := 0; i < n/2; i++ {
 		s := genSig(r, 3, "IisLlbfdmocCwW")
